@@ -45,6 +45,13 @@ class _Loader(importlib.abc.SourceLoader):
     def get_code(self, fullname):                      # never use / write .pyc for transformed code
         return self.source_to_code(self.get_data(self.path), self.path)
 
+    def exec_module(self, module):
+        super(_Loader, self).exec_module(module)
+        # remember the module-level containers as they are right after import: ctx.begin() puts them back at the
+        # start of every symbolic path (one path = one fresh process), see ctx._reset_module_state
+        from pbsym import ctx
+        ctx.remember_module_state(module)
+
 
 class _Finder(importlib.abc.MetaPathFinder):
     def __init__(self, root):
